@@ -7,7 +7,7 @@ use crate::report::{fnv, par_run, Report};
 use crate::rng::Rng;
 use serde_json::json;
 
-pub const RULE: &str = "For all 22 indicators: (a) every history of depth <= d over {next a, next b, next NaN, next +inf, reset} (scalar and bar forms) for periods 1..=4, followed by reset (single or double) and a finite continuation of 3n+3 fresh inputs fed in lock-step to a newly constructed twin; (b) random histories up to thousands of operations mixing ordinary and non-finite/extreme inputs with repeated resets at random cursor positions. Oracle: every continuation output component within 1e-12 relative of the fresh twin's (bit-identity reported), Display/period/multiplier equal before and after reset and equal to the constructor arguments, reset of a fresh instance changes nothing. Non-trivial: history contains at least one next before the reset; distinct by construction (enumeration) or by hash of the op history.";
+pub const RULE: &str = "For all 22 indicators: (a) every history of depth <= d over {next a, next b, next NaN, next +inf, reset} (scalar and bar forms) for periods 1..=4, followed by reset (single or double) and a finite continuation of 3n+3 fresh inputs fed in lock-step to a newly constructed twin; (a') the same enumeration over {next a, next b, reset, serialize-deserialize-swap, clone-swap} (a reset directly after a restore or clone); (a'') periods up to usize::MAX for the allocation-free indicators; (b) random histories up to thousands of operations mixing ordinary and non-finite/extreme inputs with repeated resets at random cursor positions. Oracle: every continuation output component within 1e-12 relative of the fresh twin's (bit-identity reported), Display/period/multiplier equal before and after reset and equal to the constructor arguments, reset of a fresh instance changes nothing. Non-trivial: history contains at least one next before the reset; distinct by construction (enumeration) or by hash of the op history.";
 
 const REL: f64 = 1e-12;
 
@@ -31,6 +31,16 @@ fn alphabet(bars: bool) -> Vec<Op> {
     } else {
         vec![Op::NextF(1.5), Op::NextF(-7.0), Op::NextF(f64::NAN), Op::NextF(f64::INFINITY), Op::Reset]
     }
+}
+
+/// the wider alphabet of the second enumeration: the order of reset relative to a restore or a clone
+fn alphabet_lifecycle(bars: bool) -> Vec<Op> {
+    let mut a = alphabet(bars);
+    a.remove(3);
+    a.remove(2);
+    a.push(Op::SerDeSwap);
+    a.push(Op::CloneSwap);
+    a
 }
 
 /// finite continuation, different from anything in the histories. Odd salts give a *signed*
@@ -218,6 +228,17 @@ fn run_enum(ctx: &Ctx) -> Report {
                 rep.sample(json!({"phase": "enum", "indicator": p.label(), "history": ops_json_ops(h), "then": "reset + 3n+3 finite inputs vs fresh twin"}));
             }
         });
+        // second enumeration over {next a, next b, reset, serde-swap, clone-swap}: a reset issued directly
+        // after a restore or a clone, a restore directly after a reset, ...
+        let alpha2 = alphabet_lifecycle(*bars);
+        if *first < alpha2.len() {
+            let mut hist = vec![alpha2[*first].clone()];
+            rec(&alpha2, depth, &mut hist, &mut |h| {
+                check_history(rep, &p, h, &cont, false, "enum_lifecycle");
+                rep.count("enum.lifecycle_histories");
+                rep.distinct_by_construction += 1;
+            });
+        }
         // the empty history: reset on a fresh instance changes nothing
         check_history(rep, &p, &[], &cont, false, "fresh");
         check_history(rep, &p, &[], &cont, true, "fresh");
@@ -250,7 +271,9 @@ fn run_random(ctx: &Ctx) -> Report {
         let p_hostile = *rng.pick(&[0.0, 0.02, 0.3]);
         let mut since_reset = 0usize;
         for _ in 0..len {
-            if rng.chance(p_reset) {
+            if rng.chance(0.004) {
+                hist.push(if rng.chance(0.5) { Op::SerDeSwap } else { Op::CloneSwap });
+            } else if rng.chance(p_reset) {
                 hist.push(Op::Reset);
                 rep.count(&format!("random.inner_reset_at_cursor_residue.{}", if n <= 8 { (since_reset % n).to_string() } else { "n>8".into() }));
                 since_reset = 0;
@@ -277,8 +300,32 @@ fn run_random(ctx: &Ctx) -> Report {
     })
 }
 
+fn run_huge_periods(ctx: &Ctx) -> Report {
+    let jobs = crate::common::huge_period_params();
+    par_run(jobs, ctx.threads, move |p, rep| {
+        if Inst::try_new(p).is_err() {
+            rep.count("skipped.constructor_failed(see C11)");
+            return;
+        }
+        for bars in [false, true] {
+            if !bars && !p.kind.has_scalar() {
+                continue;
+            }
+            let hist = continuation(bars, 12, 7);
+            let cont = continuation(bars, 12, 2);
+            check_history(rep, p, &hist, &cont, false, "huge_period");
+            check_history(rep, p, &[], &cont, true, "huge_period");
+            rep.count("huge_period_histories");
+            rep.distinct_by_construction += 1;
+        }
+    })
+}
+
 pub fn run(ctx: &Ctx) -> Report {
     let mut rep = Report::new();
+    if ctx.phase_enabled("huge") {
+        rep.merge(run_huge_periods(ctx));
+    }
     if ctx.phase_enabled("enum") {
         rep.merge(run_enum(ctx));
     }
